@@ -175,7 +175,17 @@ func (h *HttpServer) readHTTPBody(r *http.Request) ([]byte, error) {
 		} else if decompressedCap <= 0 && limit > 0 {
 			decompressedCap = limit * 16
 		}
-		return decompressBounded(encoding, body, decompressedCap)
+		decoded, err := decompressBounded(encoding, body, decompressedCap)
+		// Only an overrun of the advertised cap is a 413 naming
+		// max_request_bytes. When the decoded cap in force is the operator's
+		// decompressed-size limit (explicit or derived from maxBodySize), the
+		// client was never told a max_request_bytes to stay under — possibly
+		// none is configured at all — so the overrun stays a 400.
+		var overrun *decodedBodyTooLargeError
+		if requestCapApplied && decompressedCap == limit && errors.As(err, &overrun) {
+			return nil, &requestBodyTooLargeError{Limit: limit}
+		}
+		return decoded, err
 	default:
 		return nil, &unsupportedEncodingError{Encoding: encoding}
 	}
